@@ -103,7 +103,11 @@ func (x *Exec) callFn(st *State, fn *ssa.Function, bind []*Val, args []*Val, pos
 	if h, ok := x.w.intrinsic(fn); ok {
 		return h(x, st, fn, args, pos)
 	}
-	if x.inlineNames[fn.Name()] && fn.Blocks != nil && fn.Signature.Recv() != nil && x.unitFn != nil && fn.Pkg == x.unitFn.Pkg {
+	iname := fn.Name()
+	if o := fn.Origin(); o != nil {
+		iname = o.Name()
+	}
+	if x.inlineNames[iname] && fn.Blocks != nil && x.unitFn != nil && (fn.Pkg == x.unitFn.Pkg || fn.Origin() != nil && fn.Origin().Pkg == x.unitFn.Pkg) && (fn.Signature.Recv() != nil || fn.Origin() != nil) {
 		// bounded harness: this callee is executed itself (loops unrolled), its own callees
 		// are still replaced by their contracts
 		x.calls["inlined (bounded harness): "+name]++
@@ -895,6 +899,31 @@ func init() {
 
 func hAssume(x *Exec, st *State, fn *ssa.Function, args []*Val, pos token.Pos) ([]*Val, error) {
 	x.assumeIn(st, args[0].C[0])
+	// A forall evaluated as an ordinary expression (the argument of gocv_assume is computed
+	// before the call) was skolemised, which is the right reading of a goal but only one
+	// instance of a hypothesis.  Where such a skolemised formula occurs POSITIVELY in what is
+	// assumed, the universally quantified hypothesis it stands for is activated as well.
+	if len(x.latent) > 0 {
+		seen := map[int]bool{}
+		var walk func(t *Term, pos bool)
+		walk = func(t *Term, pos bool) {
+			if p, ok := x.latent[t.id]; ok && pos && !seen[t.id] {
+				seen[t.id] = true
+				q := *p
+				q.guard = x.full(st)
+				x.pend = append(x.pend, &q)
+			}
+			switch t.Op {
+			case "and", "or":
+				for _, a := range t.Args {
+					walk(a, pos)
+				}
+			case "not":
+				walk(t.Args[0], !pos)
+			}
+		}
+		walk(args[0].C[0], true)
+	}
 	return nil, nil
 }
 
@@ -1040,7 +1069,30 @@ func hForall(x *Exec, st *State, fn *ssa.Function, args []*Val, pos token.Pos) (
 	if err != nil {
 		return nil, err
 	}
-	return []*Val{x.boolVal(tb.Implies(inRange(sk), b))}, nil
+	res := tb.Implies(inRange(sk), b)
+	if x.ghost <= 1 {
+		// remember the quantified reading, in case the result ends up being assumed (hAssume)
+		snap := st.clone()
+		lp := &pendingForall{lo: lo, hi: hi}
+		lp.body = func(i *Term) (*Term, error) {
+			iv := &Val{T: types.Typ[types.Int], C: []*Term{i}}
+			s2 := snap.clone()
+			x.ghost++
+			x.assume++
+			vals, _, err := x.runFuncBind(body.Fn, []*Val{iv}, body.Bind, s2, nil)
+			x.assume--
+			x.ghost--
+			if err != nil {
+				return nil, err
+			}
+			return tb.Implies(inRange(i), vals[0].C[0]), nil
+		}
+		if x.latent == nil {
+			x.latent = map[int]*pendingForall{}
+		}
+		x.latent[res.id] = lp
+	}
+	return []*Val{x.boolVal(res)}, nil
 }
 
 // instantiatePending instantiates every pending quantified hypothesis at the skolem
@@ -1179,6 +1231,9 @@ func init() {
 		x.assumeIn(st, tb.And(tb.Cmp("bvsle", tb.BV(64, 0), i.C[0]), tb.Cmp("bvsle", i.C[0], s.C[2])))
 		el := x.load(st, &Addr{prefix: elemPrefix(sl.Elem()), keys: []*Term{s.C[0], tb.Add(s.C[1], i.C[0])}}, sl.Elem())
 		x.assumeIn(st, tb.Implies(found.C[0], tb.And(tb.Cmp("bvslt", i.C[0], s.C[2]), tb.Eq(el.C[0], target.C[0]))))
+		// a one-element slice is sorted whatever it holds: not found means its element differs
+		el0 := x.load(st, &Addr{prefix: elemPrefix(sl.Elem()), keys: []*Term{s.C[0], s.C[1]}}, sl.Elem())
+		x.assumeIn(st, tb.Implies(tb.And(tb.Eq(s.C[2], tb.BV(64, 1)), tb.Not(found.C[0])), tb.Ne(el0.C[0], target.C[0])))
 		return []*Val{i, found}, nil
 	}
 	externals["errors.New"] = func(x *Exec, st *State, fn *ssa.Function, args []*Val, pos token.Pos) ([]*Val, error) {
